@@ -102,7 +102,12 @@ impl CentralDirectoryEnd {
         writer.write_u16::<LittleEndian>(self.number_of_files)?;
         writer.write_u32::<LittleEndian>(self.central_directory_size)?;
         writer.write_u32::<LittleEndian>(self.central_directory_offset)?;
-        writer.write_u16::<LittleEndian>(self.zip_file_comment.len() as u16)?;
+        let comment_length: u16 = self
+            .zip_file_comment
+            .len()
+            .try_into()
+            .map_err(|_| ZipError::InvalidArchive("Archive comment is too long"))?;
+        writer.write_u16::<LittleEndian>(comment_length)?;
         writer.write_all(&self.zip_file_comment)?;
         Ok(())
     }
